@@ -1,7 +1,7 @@
 SPECIFICATION Spec
 CONSTANTS
   Family = "text"
-  MaxN = 2
+  MaxN = 1
   MaxLen = 4
   MaxBody = 3
   Export = TRUE
